@@ -1740,11 +1740,17 @@ def r0710_truth(F, rep):
                 n += 1
                 if 'slot' not in seen:
                     lacking.setdefault('static-_Bool-object', []).append('initializer')
+            else:
+                und = 'write_gvar_data was not seen folding the initializer of a _Bool object (its interface or shape changed): the position cannot be judged'
         except Unsupported as e:
             und = 'cannot summarise write_gvar_data for a _Bool object: %s' % e
     key = '%s:eval2:truth-of-address-constant' % U
     w = '%s:%d' % (U, u.fn('eval2').line)
-    if lacking:
+    if und:
+        # the key of the aggregated obligation names every failing position: with one position unjudged it would name another set than the
+        # one that was triaged, so no verdict is given at all
+        rep.undecided('R07.10', key, und, where=w)
+    elif lacking:
         rep.ob('R07.10', '%s/folded-without-slot:%s' % (key, ','.join(sorted(lacking))), False,
                'where address constants are allowed (static initializer: the folder has a slot for the symbol) the operand whose truth value is taken is folded with no slot at all in: %s: '
                'an address constant there reaches the arm of the variable, which answers "not a compile-time constant": `int x; static _Bool b = &x;`, `static _Bool b = (_Bool)&x;`, '
@@ -2530,6 +2536,34 @@ def r073(P, rep):
 
 
 # ------------------------------------------------------------------ R07.7 ---
+def _folder_family(cu):
+    """the folder and the helpers that are PART of it: the evaluators themselves plus every function all of whose callers are members, that takes the
+    node it evaluates (a `Node *` first parameter) and evaluates through a member (an arm of the folder extracted into a function of its own: the
+    cut a cast arm makes is the cast's meaning, judged by R07.1/R07.2, not a consumer narrowing the result)"""
+    fam = set(f for f in ('eval', 'eval2', 'eval_double', 'eval_rval', 'is_const_expr', 'const_expr') if f in cu.functions)
+    if not fam:
+        return fam
+    callers = {}
+    for f, fd in cu.functions.items():
+        for c in fd.calls():
+            g = c.callee()
+            if g in cu.functions:
+                callers.setdefault(g, set()).add(f)
+    changed = True
+    while changed:
+        changed = False
+        for f, fd in cu.functions.items():
+            if f in fam or not callers.get(f):
+                continue
+            ps = cu.params(f)
+            t0 = ' '.join(((ps[0].dtype or ps[0].type) if ps else '').replace('struct ', '').split())
+            if t0 != 'Node *':
+                continue
+            if callers[f] <= fam and any(c.callee() in fam for c in fd.calls()):
+                fam.add(f); changed = True
+    return fam
+
+
 def r077(F, P, rep):
     rep.rule('R07.7', 'between the folder and each consumer no intermediate object is narrower than the sink: a folded value stored in a narrow local '
                       'is not widened again, a 64-bit local holding it is not cut and widened again where it is used, const_expr returns the folder\'s value unchanged, '
@@ -2556,8 +2590,9 @@ def r077(F, P, rep):
     nsites = 0
     for un in P.unit_names:
         cu = P.unit(un)
+        family = _folder_family(cu)
         for fname, fd in cu.functions.items():
-            if fname in ('eval', 'eval2', 'eval_double', 'eval_rval', 'is_const_expr', 'const_expr'):
+            if fname in family:
                 continue
             for c in fd.calls(producers):
                 nsites += 1
